@@ -135,7 +135,7 @@ class TsHarness:
         self.ts.log = FakeLog(self)
         self.events.clear()
         base = self.ts.MonotonicTimestampGenerator
-        self.sched.trace_lines(base.__call__, base._next_timestamp)
+        self.sched.trace_files(self.ts.__file__)     # every function of timestamps.py, however the generator is cut up
         for t in range(1, n + 1):
             self.sched.spawn(str(t), self._body, t)
 
@@ -169,7 +169,7 @@ class TsHarness:
             self.errors[t] = repr(ex)
             raise Divergence("thread %d raised %r" % (t, ex))
 
-    def until_event(self, t, kind, limit=12):
+    def until_event(self, t, kind, limit=80):
         """Step t until it has produced an event of `kind`; returns the events produced on the way."""
         start = len(self.events)
         for _ in range(limit):
@@ -181,7 +181,7 @@ class TsHarness:
                 break
         raise Divergence("thread %d did not produce '%s' (events %s)" % (t, kind, self.events[start:]))
 
-    def to_lock(self, t, limit=20):
+    def to_lock(self, t, limit=120):
         """Internal steps: bring t to the point where it asks for the lock (or to its end)."""
         start = len(self.events)
         th = self.sched.threads[str(t)]
